@@ -156,7 +156,7 @@ class Scenario:
             res = self.absres(op, r)
         except ProducerError:
             r, res = None, EXC
-        except Exception as e:  # noqa
+        except BaseException as e:  # noqa  (a Rust panic surfaces as a BaseException)
             r, res = None, {"ty": "exc", "i": 1}
             sys.stderr.write("scenario %s: %s(%d) raised %r\n" % (self.sc["id"], op, c, e))
         self.log("ret", t, res=res)
